@@ -538,7 +538,8 @@ def gen_c09(rng, fs, i, cfg):
         if rng.random() < 0.12:
             # the run stops somewhere: the file must not pass for a complete multires file
             zop["fault"] = {"kind": "F4", "open": rng.randint(0, 40), "width": 1}
-        if cols and rng.random() < 0.5:
+        if cols and rng.random() < 0.5 and len(bases) == 1:
+            # (with two bases a non-additive aggregate depends on which base a chain starts from)
             zop["agg"] = {extra[0]: rng.choice(["max", "min"])}
             zop["cli"] = rng.random() < 0.5
             zop["fields_order"] = rng.sample(cols, len(cols))
